@@ -14,6 +14,12 @@ package main
 //   frame.unpack t= p0= rd= in= zin=<dig|-> zr=<none|bx>
 //        => ok id= data= cap= rest= | err rest= | panic | hang
 //
+//   frame.hold t= tail= pks=<as frame.seq>      every frame is read into a FRESH Packet, all are held; afterwards the
+//        => P ok <dig>,… U ok/<id>/<dig>/<cap>,… rest=<n> H <id>/<dig>,…     packets are packed and unpacked again
+//        (H = what the held packets contain after those later calls have reused the pooled buffers)
+//   frame.big t= id= data= p0= rest= zl=<len of z> zh=<first 16 bytes of z> zi=<same|none|other> zr=<same|none|other>
+//        => P ok n=<len frame> hd=<first 15 bytes of the frame> U …      (near-maximum payloads: the blob stays off the line)
+//
 // z  = the zlib stream found in the emitted frame by the harness's own frame parser (the value of `deflate` for
 //      that call), zi = what Go's zlib reader makes of it when read strictly (complete stream, clean EOF, no
 //      trailing bytes), zr = what Go's zlib reader delivers before EOF or an error ("same" = VarInt(id) ++ data).
@@ -339,6 +345,138 @@ func c07Seq(c *Ctx, t int, p0 c07Recv, kind string, tailBx string, pks []c07P) {
 	c.Emit("frame.seq", append(args, "pks="+strings.Join(items, ",")), obs)
 }
 
+// c07Hold: the stream is read into fresh Packet values that are all kept; later Pack/UnPack calls reuse the pools;
+// only then the held packets are printed.
+func c07Hold(c *Ctx, t int, tailBx string, pks []c07P) {
+	var stream []byte
+	var items, digs []string
+	var frames [][]byte
+	pst := "ok"
+	for _, q := range pks {
+		data := bxEval(q.bx)
+		st, frame := realPack("pk", t, q.id, data)
+		if st != "ok" {
+			pst = st
+			break
+		}
+		z, zi, zr := zInfo(t, frame, q.id, data)
+		items = append(items, fmt.Sprintf("%08x/%s/%s/%s/%s", uint32(q.id), q.bx, z, zi, zr))
+		digs = append(digs, dig(frame))
+		frames = append(frames, append([]byte{}, frame...))
+		stream = append(stream, frame...)
+	}
+	args := []string{fmt.Sprintf("t=%d", t), "tail=" + tailBx}
+	if pst != "ok" {
+		items = items[:0]
+		for _, q := range pks {
+			items = append(items, fmt.Sprintf("%08x/%s/-/none/none", uint32(q.id), q.bx))
+		}
+		c.Emit("frame.hold", append(args, "pks="+strings.Join(items, ",")), "P "+pst)
+		return
+	}
+	stream = append(stream, bxEval(tailBx)...)
+	br := bytes.NewReader(stream)
+	held := make([]pk.Packet, 0, len(pks))
+	var res []string
+	for range pks {
+		var recv pk.Packet // fresh: no spare capacity
+		var err error
+		// same goroutine as the later calls, so that the sync.Pool hands the same objects out again
+		p, _ := guard(func() { err = recv.UnPack(br, t) })
+		if p {
+			res = append(res, "panic")
+			break
+		}
+		if err != nil {
+			res = append(res, "err")
+			break
+		}
+		res = append(res, fmt.Sprintf("ok/%08x/%s/%d", uint32(recv.ID), dig(recv.Data), cap(recv.Data)))
+		held = append(held, recv)
+	}
+	rest := br.Len()
+	// later traffic on the same goroutine: every packet is packed and unpacked again (twice, in reverse order),
+	// plus one larger packet in each mode, so that every pooled buffer is reset and overwritten
+	guard(func() {
+		for round := 0; round < 2; round++ {
+			for i := len(pks) - 1; i >= 0; i-- {
+				var w bytes.Buffer
+				q := pk.Packet{ID: ^pks[i].id, Data: bytes.Repeat([]byte{0xA5}, len(frames[i])+8)}
+				_ = q.Pack(&w, t)
+				var scratch pk.Packet
+				_ = scratch.UnPack(&w, t)
+				w.Reset()
+				q = pk.Packet{ID: 7, Data: bytes.Repeat([]byte{0x5A}, 700)}
+				_ = q.Pack(&w, 1<<20) // below threshold: plain-in-compressed, goes through the pooled buffer
+				_ = scratch.UnPack(&w, 1<<20)
+			}
+		}
+	})
+	var hs []string
+	for _, h := range held {
+		hs = append(hs, fmt.Sprintf("%08x/%s", uint32(h.ID), dig(h.Data)))
+	}
+	obs := "P ok " + strings.Join(digs, ",") + " U " + strings.Join(res, ",") + fmt.Sprintf(" rest=%d", rest) +
+		" H " + strings.Join(hs, ",")
+	c.Emit("frame.hold", append(args, "pks="+strings.Join(items, ",")), obs)
+}
+
+func opt3(out []byte, ok bool, same []byte) string {
+	if !ok {
+		return "none"
+	}
+	if bytes.Equal(out, same) {
+		return "same"
+	}
+	return "other"
+}
+
+// c07Big: like frame.rt for near-maximum payloads; the deflate blob is described by its length and first bytes.
+func c07Big(c *Ctx, t int, id int32, dataBx string, p0 c07Recv, restBx string) {
+	data := bxEval(dataBx)
+	rest := bxEval(restBx)
+	st, frame := realPack("pk", t, id, data)
+	obs := "P " + st
+	zl, zh, zi, zr := 0, "-", "none", "none"
+	if st == "ok" {
+		hd := frame
+		if len(hd) > 15 {
+			hd = hd[:15]
+		}
+		obs += fmt.Sprintf(" n=%d hd=%s", len(frame), hx(hd))
+		if t >= 0 {
+			// the harness's own parse of the frame
+			if pl, n1, ok := ownVarInt(frame); ok {
+				end := len(frame)
+				if pl >= 0 && n1+int(pl) <= len(frame) {
+					end = n1 + int(pl)
+				}
+				if dl, n2, ok := ownVarInt(frame[n1:end]); ok && dl != 0 {
+					zs := frame[n1+n2 : end]
+					zl = len(zs)
+					k := len(zs)
+					if k > 16 {
+						k = 16
+					}
+					zh = hx(zs[:k])
+					same := append(leb32(id), data...)
+					a, ok1 := zStrict(zs)
+					zi = opt3(a, ok1, same)
+					b, ok2 := zLenient(zs)
+					zr = opt3(b, ok2, same)
+				}
+			}
+		}
+		in := append(append([]byte{}, frame...), rest...)
+		br := bytes.NewReader(in)
+		recv := p0.mk()
+		obs += " U " + realUnpack("pk", t, &recv, br, br)
+	}
+	c.Emit("frame.big", []string{
+		fmt.Sprintf("t=%d", t), fmt.Sprintf("id=%08x", uint32(id)), "data=" + dataBx, "p0=" + p0.String(),
+		"rest=" + restBx, fmt.Sprintf("zl=%d", zl), "zh=" + zh, "zi=" + zi, "zr=" + zr}, obs)
+}
+
 func c07Unpack(c *Ctx, t int, p0 c07Recv, kind string, inBx string) {
 	c07UnpackH(c, t, p0, kind, inBx, "")
 }
@@ -399,6 +537,17 @@ func replayC07(c *Ctx, op string, args []string) bool {
 			pks = append(pks, c07P{int32(uint32(id)), f[1]})
 		}
 		c07Seq(c, t, c07ParseRecv(m["p0"]), m["rd"], m["tail"], pks)
+	case "frame.hold":
+		var pks []c07P
+		for _, it := range strings.Split(m["pks"], ",") {
+			f := strings.Split(it, "/")
+			id, _ := strconv.ParseUint(f[0], 16, 32)
+			pks = append(pks, c07P{int32(uint32(id)), f[1]})
+		}
+		c07Hold(c, t, m["tail"], pks)
+	case "frame.big":
+		id, _ := strconv.ParseUint(m["id"], 16, 32)
+		c07Big(c, t, int32(uint32(id)), m["data"], c07ParseRecv(m["p0"]), m["rest"])
 	case "frame.unpack":
 		c07Unpack(c, t, c07ParseRecv(m["p0"]), m["rd"], m["in"])
 	default:
@@ -642,8 +791,105 @@ func genC07(c *Ctx) {
 		c07Seq(c, t, c.c07Recv(c.R.Intn(300)), c.c07Kind(), c.c07Rest(), pks)
 	}
 
+	// 3b. the same kind of stream read into FRESH Packet values that are all held and compared only after the whole
+	//     stream has been read and further Pack/UnPack calls have reused the pools (payload ownership)
+	for i := 0; i < c.N(250, 4000); i++ {
+		t := []int{-1, 0, 1, 64, 256, 1 << 21}[i%6]
+		if i%11 == 0 {
+			t = 2 + c.R.Intn(40)
+		}
+		k := 2 + c.R.Intn(10)
+		var pks []c07P
+		for j := 0; j < k; j++ {
+			n := c.R.Intn(1 << uint(c.R.Intn(8)))
+			if t > 0 && c.R.Intn(2) == 0 {
+				// non-empty and below the threshold: the plain-in-compressed form
+				m := t
+				if m > 200 {
+					m = 200
+				}
+				n = 1 + c.R.Intn(m)
+				if n >= t {
+					n = t - 1
+				}
+			}
+			pks = append(pks, c07P{c.c07ID(), c.c07Data(n)})
+		}
+		c07Hold(c, t, c.c07Rest(), pks)
+	}
+
+	// 3c. near-maximum INCOMPRESSIBLE payloads with compression on: the compressed frame is longer than the packet,
+	//     its Packet Length crosses 2^21 (a four-byte VarInt) although id + data is below the protocol maximum
+	c07NearMax(c)
+
 	// 4. malformed input: rejection and totality
 	c07Malformed(c)
+}
+
+// c07NearMax: LCG payloads of 2 096 400 … MaxDataLength − idLen bytes, t = 0 and 256, ids with 1- and 5-byte VarInts;
+// sizes around the point where the Packet Length of the compressed frame reaches 2^21 are found by bisection.
+func c07NearMax(c *Ctx) {
+	plOf := func(t int, id int32, seed, n int) int {
+		st, frame := realPack("pk", t, id, lcgBytes(uint64(seed), n, 56))
+		if st != "ok" {
+			return -1 // a failing Pack is reported by the case itself
+		}
+		pl, _, _ := ownVarInt(frame)
+		return int(pl)
+	}
+	type combo struct {
+		t  int
+		id int32
+	}
+	combos := []combo{{0, 0x2a}, {256, -1}, {256, 0x2a}, {0, -1}}
+	for ci, cb := range combos {
+		seed := 1000 + c.R.Intn(1<<20)
+		max := c07Max - idLen(cb.id)
+		lo, hi := 2096400, max // smallest n with Packet Length >= 2^21 lies in (lo, hi] for zlib's stored blocks
+		cross := -1
+		if p := plOf(cb.t, cb.id, seed, hi); p < 0 || p >= 1<<21 {
+			for hi-lo > 1 {
+				mid := (lo + hi) / 2
+				if p := plOf(cb.t, cb.id, seed, mid); p < 0 || p >= 1<<21 {
+					hi = mid
+				} else {
+					lo = mid
+				}
+			}
+			cross = hi
+		}
+		// quick tier: 7 cases in all (each costs the driver about 2 s)
+		var sizes []int
+		switch {
+		case c.Thorough():
+			sizes = []int{max, max - 1, 2096400, 2096400 + c.R.Intn(700), max - c.R.Intn(600)}
+			if cross > 0 {
+				sizes = append(sizes, cross-1, cross, cross+1)
+			}
+		case cross < 0:
+			sizes = []int{max}
+		case ci == 0:
+			sizes = []int{max, cross, cross - 1}
+		case ci == 1:
+			sizes = []int{cross, cross + 1}
+		default:
+			sizes = []int{cross}
+		}
+		for si, n := range sizes {
+			if n < 0 || n > max {
+				continue
+			}
+			p0 := c07Recv{0, 0}
+			if (ci+si)%3 == 1 {
+				p0 = c07Recv{5, n}
+			}
+			rest := "-"
+			if si%2 == 0 {
+				rest = "07"
+			}
+			c07Big(c, cb.t, cb.id, fmt.Sprintf("g%d.%d", seed, n), p0, rest)
+		}
+	}
 }
 
 func c07Compress(id int32, data []byte) []byte {
